@@ -31,10 +31,17 @@ ONE = int.from_bytes(b"\x01" + b"\0" * 31, "big")
 
 
 def _tx_dict(case):
-    return {"version": case["version"], "locktime": case["locktime"],
-            "ins": [{"prev_hash": bytes.fromhex(i[0]), "prev_index": i[1], "script": bytes.fromhex(i[2]), "sequence": i[3]}
-                    for i in case["ins"]],
-            "outs": [{"value": o[0], "script": bytes.fromhex(o[1])} for o in case["outs"]]}
+    txd = {"version": case["version"], "locktime": case["locktime"],
+           "ins": [{"prev_hash": bytes.fromhex(i[0]), "prev_index": i[1], "script": bytes.fromhex(i[2]), "sequence": i[3]}
+                   for i in case["ins"]],
+           "outs": [{"value": o[0], "script": bytes.fromhex(o[1])} for o in case["outs"]]}
+    # many inputs / outputs, described compactly: further ones derived from their position
+    for k in range(case.get("more_ins", 0)):
+        txd["ins"].append({"prev_hash": R.sha256(b"in%d" % k), "prev_index": k, "script": bytes([0x51 + k % 16]) * (k % 3),
+                           "sequence": 0xffffffff - k})
+    for k in range(case.get("more_outs", 0)):
+        txd["outs"].append({"value": 1000 + k, "script": bytes([0x51 + k % 16])})
+    return txd
 
 
 def _pycoin_tx(T, txd, amounts):
@@ -68,6 +75,8 @@ def o_sighash(case):
     snap = _snapshot(tx)
     sc = T.SolutionChecker(tx)
     labels = ["coin=" + coin, "ins=%d" % min(len(txd["ins"]), 3), "outs=%d" % min(len(txd["outs"]), 3)]
+    if n_in >= 253:
+        labels.append("input-index>=257" if n_in >= 257 else "input-index=253..256")
     if b"\xab" in code:
         labels.append("has-ab-byte")
     single_oob = n_in >= len(txd["outs"])
@@ -122,7 +131,8 @@ def _h(v):
 
 
 def _short(case):
-    return "v=%d lt=%d ins=%d outs=%d n_in=%d" % (case["version"], case["locktime"], len(case["ins"]), len(case["outs"]), case["n_in"])
+    return "v=%d lt=%d ins=%d outs=%d n_in=%d" % (case["version"], case["locktime"], len(case["ins"]) + case.get("more_ins", 0),
+                                                 len(case["outs"]) + case.get("more_outs", 0), case["n_in"])
 
 
 def o_closure(case):
@@ -401,9 +411,16 @@ def _txs():
     value = st.one_of(st.sampled_from([0, 1, 2**63 - 1, 2**63, 2**64 - 1, 21 * 10**14]), st.integers(0, 2**64 - 1))
     tin = st.tuples(h32, u32, script, u32).map(list)
     tout = st.tuples(value, script).map(list)
-    return st.fixed_dictionaries({"version": u32, "locktime": u32, "ins": st.lists(tin, min_size=1, max_size=6),
-                                  "outs": st.lists(tout, min_size=0, max_size=6), "n_in": st.integers(0, 5),
-                                  "amount": value})
+    from gen.common import weighted
+    small = st.fixed_dictionaries({"version": u32, "locktime": u32, "ins": st.lists(tin, min_size=1, max_size=6),
+                                   "outs": st.lists(tout, min_size=0, max_size=6), "n_in": st.integers(0, 5),
+                                   "amount": value})
+    # input / output counts and input indices around 253 (compact-size escape), 256 / 257 (one byte; CPython's shared
+    # small integers end at 256) and beyond
+    counts = st.sampled_from([247, 251, 252, 253, 254, 255, 256, 257, 258, 260, 300, 300, 520])
+    many = st.builds(lambda c, mi, mo, n_in: dict(c, more_ins=mi, more_outs=mo, n_in=n_in), small, counts,
+                     st.one_of(st.just(0), counts), st.one_of(st.sampled_from([251, 252, 253, 255, 256, 257, 258, 259, 299]), st.integers(0, 600)))
+    return weighted((11, small), (1, many))
 
 
 def s_sighash():
